@@ -1,5 +1,5 @@
 """C12 — the call graph contains every call that can happen at run time (engine P).
-Alphabet: 33 dispatch forms (static, function value in variable/field/slice/map/channel/returned, closure, bound method
+Alphabet: 35 dispatch forms (static, function value in variable/field/slice/map/channel/returned, closure, bound method
 value, method expression, interface method with 2 implementations, pointer-receiver implementation, embedded-interface
 promotion, generic instantiation, defer, go, go closure, function parameter, function passed to a deferred/go call,
 interface widening assertion, global initialised in init, one concrete type converted to two interfaces, one type shared by all hops, receivers kept as map keys - interface / pointer / channel keys, map-typed struct field, callables in named array / slice / map types); bound: all sequences of <=2 hops (quick); thorough adds all 3-hop sequences over 13 core forms.
